@@ -46,10 +46,10 @@ def harnesses(tier, seed):
                     cfgs += [(5, 3, 1), (5, 2, 2), (5, 2, 1)]
                 if src == "vec":
                     # chunked pulls from the owning Vec source (take_slice + NoLeakIter) cost ~17 min per query
-                    cfgs = [cf for cf in cfgs if cf[2] == 1] + ([(3, 2, 2)] if term == "reduce_xor" else [])
+                    cfgs = [cf for cf in cfgs if cf[2] == 1]
                 for (n, t, c) in cfgs:
                     hs.append(h(term, ty, src, n, t, c))
-            if ty not in heavy_ty:
+            if ty not in heavy_ty and src != "vec":
                 hs.append(h("reduce_xor", ty, src, 4, 2, "min2", "ChunkSize::Min(NonZeroUsize::new(2).unwrap())"))
             if ty not in ("E", "F"):
                 hs.append(h("reduce_xor", ty, "sched", 4 if ty not in heavy_ty else 3, 2, 1))
